@@ -98,7 +98,7 @@ func paramKinds(prog string) (n int, isStr [9]bool) {
 }
 
 func domain(prog, name string, n int, isStr [9]bool, f func(p []interface{})) {
-	strs := []string{"", "ab", "http://x/y?z=1;2", "%d$<5>"}
+	strs := []string{"", "ab", "http://x/y?z=1;2", "%d$<5>", "007"}
 	ints1 := func(max int) []int {
 		v := make([]int, max+1)
 		for i := range v {
@@ -417,8 +417,8 @@ func init() {
 			}
 		}
 	}
-	for _, a := range []string{"", "ab", "hello, world"} {
-		for _, b := range []string{"", "xyz"} {
+	for _, a := range []string{"", "ab", "hello, world", "007"} { // (a string of digits is a string)
+		for _, b := range []string{"", "xyz", "12"} {
 			strVecs = append(strVecs, []interface{}{a, b, 3})
 		}
 	}
